@@ -92,8 +92,12 @@ def run_shard(shard, ctx):
 def relabel_unit(ctx, unit):
     cfg = unit['cfg']
     name = gen.cfg_str(cfg)
-    A = gen.make_algebra(cfg)
-    D = gen.make_algebra(default_twin(cfg, A))
+    A = gen.make_or_skip(ctx, cfg)
+    if A is None:
+        return
+    D = gen.make_or_skip(ctx, default_twin(cfg, A))
+    if D is None:
+        return
     isoA, isoD = Iso(A), Iso(D)
     if cfg.get('basis'):
         ctx.count('custom_basis_algebras')
@@ -248,12 +252,14 @@ def must_reject(A, B):
 
 
 def reject_unit(ctx, unit):
-    algs = [gen.make_algebra(c) for c in unit['algs']]
+    algs = [gen.make_or_skip(ctx, c) for c in unit['algs']]
     rng = ctx.rng
     for i, j in unit['pairs']:
         if ctx.out_of_time():
             return
         A, B = algs[i], algs[j]
+        if A is None or B is None:
+            continue
         why = must_reject(A, B)
         if not why:
             ctx.count('pairs_outside_rejection_clause')
